@@ -118,7 +118,7 @@ var replays = map[*Obligation]*replayJob{}
 // Returns (reproduced, output). Empty output means no adapter.
 func tryReplay(prop string, o *Obligation, model map[string]string, replayPath string) (bool, string) {
 	rj := replays[o]
-	if rj == nil || rj.values == nil {
+	if rj == nil || rj.values == nil || os.Getenv("VERIF_NO_REPLAY") != "" {
 		return false, ""
 	}
 	vals := map[string]string{}
